@@ -155,6 +155,7 @@ def execute(plan):
     if plan["subdirs"]:
         bump("subdir")
     with World() as w:
+        w.long_opts = bool(plan.get("long_opts"))
         w.fresh_per_run = bool(plan.get("fresh"))
         w.path_style = plan.get("path_style", "abs")
         w.rel_dot = bool(plan.get("fresh"))
